@@ -1,5 +1,5 @@
 """C09 — locking is 1:1 and time-locked; early exit costs exactly the documented penalty."""
-import concurrent.futures
+import concurrent.futures, random
 import sys_locking as sl
 import coqrun
 from framework import Exploration
@@ -439,7 +439,13 @@ def explore(tier, seed, model_ok=True, focus=False):
     ex.counters["sweep:exhaustive_per_option_set"] = 1
     ex.notes.append("view sweep is exhaustive per sampled option set over (remaining epochs 0..e_last+2) x (new in {0} + options) at amount 10000")
     if model_ok:
-        res = coqrun.eval_terms(IMPORTS, terms, tag="C09", per_file=max(1, min(12, len(terms) // 16 + 1)))
+        # sweep chunks cost ~10x a history: spread them over the coqc shards (fixed permutation)
+        order = list(range(len(terms)))
+        random.Random(0).shuffle(order)
+        shuffled = coqrun.eval_terms(IMPORTS, [terms[i] for i in order], tag="C09", per_file=max(1, len(terms) // 256))
+        res = [None] * len(terms)
+        for i, r in zip(order, shuffled):
+            res[i] = r
         ex.traces_validated = len(res)
         for (kind, sd, cfg, trace), r in zip(owners, res):
             if not r:
